@@ -20,6 +20,12 @@ Parts
   spelling  : the tags Def, Onset, Offset, Inset and Delay written in lower, upper and mixed case (HED tags are
               case-insensitive): short histories, the Delay layouts and the 'several' files again, judged by the same
               oracle; a mismatch that disappears with the canonical spelling is reported as C10.*.case_insensitive.
+  unicode   : definition names with non-ASCII letters (Straße, Größe, ΟΔΟΣ, İstanbul, Café), used in the spellings the
+              name itself yields (declared, upper(), casefold(), lower(): STRASSE/strasse, οδος/οδοσ, i + combining dot ...),
+              each family declared once without and once with '/#'; only families whose every spelling the schema's name
+              rules accept (asked at run time).  Same enumeration as histories/layouts, same fold: the spellings of a
+              family are ONE name in the definition dictionary, in the Def check and in the open-scope table.  Plus seeded
+              long files over all families (sidecar definitions).
 """
 import io
 import itertools
@@ -808,8 +814,8 @@ def run(w: Workload):
         "more than one Delay-shifted marker per file outside the parts 'several' (one row holds them all) and 'long'",
         "letter case of the unit of a Delay value and Delay values in other units (rt.c07)",
         "onset cells that are not numbers (n/a onsets)",
-        "non-ASCII definition names together with Delay shifts or with respelled reserved tags; names that are equal only "
-        "after Unicode normalisation (NFC/NFKC) - the property speaks of letter case only",
+        "non-ASCII definition names together with Delay shifts (only in the seeded long files) or with respelled reserved "
+        "tags; names that are equal only after Unicode normalisation (NFC/NFKC) - the property speaks of letter case only",
     ]
 
 
